@@ -121,7 +121,15 @@ def array_key(fn, recv, before):
 
 def rule_maps(chk, cls):
     """R1: per-property maps are kept in step with `properties`."""
-    meths = M.methods(cls)
+    # private helpers a maintainer factors out of a method are inlined into their callers again (a helper that stores the array while its caller records the default is
+    # one step of the same method); the private methods that are entry points of their own keep being analysed as such
+    ENTRY_PRIVATE = ('_initialize', '_create_carray', '_check_property', '_get_real_particle_prop')
+    keep = set(n_ for n_ in M.methods(cls) if not n_.startswith('_') or n_.startswith('__') or n_ in ENTRY_PRIVATE)
+    helpers = [n_ for n_ in M.methods(cls) if n_ not in keep]
+    if helpers:
+        cls = M.inlined_class(cls, keep=keep)
+        M.set_parents(cls)
+    meths = dict((n_, f_) for n_, f_ in M.methods(cls).items() if n_ in keep)
     n = 0
     for name, fn in sorted(meths.items()):
         # deletions
